@@ -38,6 +38,28 @@ def program_cases(thorough):
         for kind in ['manydims'] + ['onerec-%d' % xt for xt in ([2, 3] + ([7, 8, 11] if ver == 5 else []))]:
             f = c04.mkfile_schema(ver, kind); cdf.layout(f); data = c04.gen_data(f); raw = cdf.encode(f, data)
             for np in (1, 2): out.append(('C04', c04.build_case('SAN-v%d-%s-np%d' % (ver, kind, np), raw, f, data, np, 64 if np == 2 else None)[0]))
+    # request queues grown across their allocation chunk (1024 sub-requests): a multi-record request counts one sub-request per record
+    for kind in ('put', 'get'):
+        for pending in (1023, 1024, 1025, 2048):
+            for nxt in ('varn', 'vara'):
+                c = Case('SAN-queue-%s-%d-%s' % (kind, pending, nxt), 1)
+                c.op('*', 'create', f=0, path='q.nc', fmt=2)
+                c.op('*', 'def_dim', f=0, name='t', unlim=1); c.op('*', 'def_dim', f=0, name='x', len=2)
+                c.op('*', 'def_var', f=0, name='r', xtype='int', dims=[0, 1]); c.op('*', 'def_var', f=0, name='r2', xtype='short', dims=[0])
+                c.op('*', 'enddef', f=0)
+                c.op('*', 'put', f=0, form='vara', v=0, s=[0, 0], c=[2100, 2], coll=1, mem='int', tag=3, scale=1)
+                c.op('*', 'put', f=0, form='vara', v=1, s=[0], c=[2100], coll=1, mem='short', tag=4, scale=1)
+                left = pending; slot = 0; rec = 0
+                while left > 0:
+                    n = min(left, 256)
+                    c.op('*', kind, f=0, form='vara', v=0, s=[rec, 0], c=[n, 1], mem='int', nb='i', req=slot, **({'tag': 5 + slot, 'scale': 1} if kind == 'put' else {}))
+                    left -= n; rec += n; slot += 1
+                if nxt == 'varn': c.op('*', kind, f=0, form='varn', v=1, mem='short', n=2, nd=1, s0=[3], c0=[2], s1=[9], c1=[1], nb='i', req=slot, **({'tag': 60, 'scale': 1} if kind == 'put' else {}))
+                else: c.op('*', kind, f=0, form='vara', v=1, s=[3], c=[3], mem='short', nb='i', req=slot, **({'tag': 60, 'scale': 1} if kind == 'put' else {}))
+                c.op('*', 'wait', f=0, kind='ALL', all=1)
+                c.op('*', 'get', f=0, form='vara', v=1, s=[0], c=[12], coll=1, mem='short')
+                c.op('*', 'close', f=0)
+                out.append(('QUEUE', c))
     import checks.c17 as c17
     if thorough:
         out += [('C15', x[0]) for x in c15.build_cases('d2', 1, 0, 'vars', False, list(c15.tuples_for([2, 3], False))) + c15.build_cases('rec', 1, 1, 'vars', True, list(c15.tuples_for([2, 2], False)))]
